@@ -34,3 +34,14 @@ func VerifICMPWaiters() int {
 func VerifYieldPoint(point string) {
 	verifYield(point)
 }
+
+// VerifICMP4SendPacket hands a caller-built ICMPv4 message to the session's sender (checksum, IPv4 and Ethernet framing, write)
+// exactly as ICMP4SendEchoRequest does with the message it encodes.
+func (h *Session) VerifICMP4SendPacket(srcAddr Addr, dstAddr Addr, p ICMP) error {
+	return h.icmp4SendPacket(srcAddr, dstAddr, p)
+}
+
+// VerifICMP6SendPacket is the IPv6 counterpart of VerifICMP4SendPacket.
+func (h *Session) VerifICMP6SendPacket(srcAddr Addr, dstAddr Addr, p []byte) error {
+	return h.icmp6SendPacket(srcAddr, dstAddr, p)
+}
